@@ -186,10 +186,10 @@ CLAIMED = True
 LEVEL_TEXT = ("Theorems (all lint-clean closed circuits without x, all operand orders, relative to a sound and complete solver): the model_count "
               "loop terminates within 2^|startpoints|+1 solver calls and returns the number of startpoint valuations that extend to a consistent "
               "valuation satisfying the assumptions; the DIMACS structure declares the startpoint variables as sampling set and its clause list "
-              "has exactly those projected models; signal_probability is that count over the cone divided by 2^|cone startpoints| (stated in full, "
-              "proved as far as SatCount.v says). Counts, the exact rational of the returned float and the captured DIMACS file are tied to the "
+              "has exactly those projected models; signal_probability, when it succeeds on a closed acyclic circuit, is the number of valuations "
+              "of the startpoints reaching n under which n is 1 in the whole circuit, divided by 2^|those startpoints| (all full). Counts, the exact rational of the returned float and the captured DIMACS file are tied to the "
               "implementation by correspondence; the oracle recounts by brute force.")
 LEVEL_NOTE = ("Trusted: as C01, plus the approxmc stand-in (its count is re-derived by the oracle) and float division (exact below 2^53; compared "
-              "via fractions.Fraction). use_xor_clauses=True is outside the property. DIMACS numbering is mapped back to names through an IDPool "
+              "via fractions.Fraction). use_xor_clauses=True and user-supplied startpoints are outside the property (default plain-clause mode). DIMACS numbering is mapped back to names through an IDPool "
               "built by an identical cnf() call in the same process.")
 TECHNIQUE = "Coq proof (loop invariant over blocked startpoint valuations, via C01) + vm_compute correspondence and brute-force oracle"
